@@ -7,6 +7,7 @@
 From Coq Require Import NArith ZArith List Bool.
 From ST Require Import Base.Outcome Base.Units Str.Model Str.CompareSpec Str.CompareModel Str.CompareProofs
      Str.FindSpec Str.FindModel Str.FindProofs.
+From ST Require Str.LeafBridge Gen.Leaf.
 Import ListNotations.
 Local Open Scope N_scope.
 
@@ -197,3 +198,12 @@ Theorem self_overlap_example :
   find_last_s CaseInsensitive [97; 65; 97; 97] 18446744073709551615 [97; 97] = Ok 2%Z.
 Proof. exact find_examples. Qed.
 Print Assumptions self_overlap_example.
+
+(* ---- tie by translation: the leaf functions below are translated from the clang AST of the CURRENT headers into
+   Gen/Leaf.v on every run (tools/leaf_translate.py: C++ integer semantics written out over Z); the hand-written
+   model functions used by every theorem above compute the same values, so an edit to one of these functions in the
+   headers breaks this obligation whatever the test generators do ---- *)
+Theorem case_folding_matches_source : forall c, c < 256 ->
+  ST.Str.LeafBridge.uchar (ST.Gen.Leaf.src_cl_fast_lower (ST.Str.LeafBridge.schar c)) = cl_fast_lower c.
+Proof. exact ST.Str.LeafBridge.cl_fast_lower_matches_source. Qed.
+Print Assumptions case_folding_matches_source.
